@@ -250,12 +250,12 @@ def _coerce_arguments(ck, repo):
     # directive arguments: per-instance coercer
     g = repo.func("tartiflette/types/helpers/get_directive_instances.py", "compute_directive_nodes")
     gv = FuncView(g)
-    pc = [c2 for c2 in gv.calls("partial") if c2.args and unparse(c2.args[0]) == "coerce_arguments"]
-    ok = False
-    if len(pc) == 1:
-        kw = {k: unparse(v) for k, v in kwargs(pc[0]).items()}
-        ok = kw == {"argument_definitions": "directive_definition.arguments", "node": "directive_node",
-                    "variable_values": f"{g.positional_params[2]} or {{}}", "coercer": "directive_definition.arguments_coercer"}
+    from .c13 import bound_coerce_arguments
+    site, kw = bound_coerce_arguments(repo, g)
+    pc = [site] if site is not None else []
+    lps_ = [l for l in gv.loops() if isinstance(l, ast.For) and unparse(l.iter) == g.positional_params[1]]
+    ok = kw == {"argument_definitions": "directive_definition.arguments", "node": unparse(lps_[0].target) if lps_ else "directive_node",
+                "variable_values": f"{g.positional_params[2]} or {{}}", "coercer": "directive_definition.arguments_coercer"}
     ck.ob("directive arguments are coerced per directive instance with that definition's arguments and the request's variables", ok, g, pc[0] if pc else g.node,
           construct="args:directive-instance")
     # GraphQLArgument.bake wiring
